@@ -1,4 +1,5 @@
 import MiniconfVerif.Lemmas.MqttStep
+import MiniconfVerif.Lemmas.GenTieMqtt
 
 /-! # C10 — a settings dump publishes every present leaf exactly once with its current value -/
 namespace MiniconfVerif.C10
@@ -61,5 +62,25 @@ example : LeafPathsOk exOps 0 ["/a".toList, "/b".toList, "/c".toList] := by
   rcases hp with rfl | rfl | rfl <;> simp [exOps] <;> decide
 example : (dumpPump exOps "p".toList 0 none ["/a".toList, "/b".toList, "/c".toList] 4 []).2.1.length = 2 := by
   decide +kernel
+
+open MiniconfVerif.Gen MiniconfVerif.Gen.Core MiniconfVerif.Gen.Mqtt MiniconfVerif.GenTie in
+/-- **`iter_dump` as translated from miniconf_mqtt/src/lib.rs** (one pass of its `while can_publish { .. }` loop is
+`Gen.Mqtt.iter_dump_body`: the next leaf of the walk, the topic `<prefix>/settings<path>`, the publication of its value,
+and the three-way classification of the result exactly as the source's `match` sorts it — `Absent` ignored, out of buffer
+→ the "Serialized value too large" Error message on the same topic, anything else `unwrap()`ed; `runDumpG` runs the loop
+as written, with the environment answering per leaf what the model's `ops.get` / `big` say) **is the model's dump pump**
+`dumpPump`, about which `dump_exactly_once` and `dump_completes` speak: for every number of granted slots, remaining
+walk, oversize pattern, correlation data — the same leaves consumed, the same messages in the same order, `Complete`
+(`Multipart → Single`) exactly when the walk has ended, nothing else sent, no panic while the walk yields leaf paths. -/
+theorem source_iter_dump_is_model {E Es X : Type} (env : Env E Es Pend) (ops : SettingsOps σ) (s : σ) (pfx : Str)
+    (rt : Option Str) (cd : Option (List Nat)) (k : Nat) (rem : List Str) (big : List Bool) (acts0 : List (Act E Es))
+    (log : List String) (ext : X) (hok : LeafPathsOk ops s rem) :
+    ∃ cl', runDumpG env ops s pfx k big
+        { st := .Multipart, pending := ⟨rem, rt, cd⟩, acts := acts0, log := log, ext := ext } = .val cl' ∧
+      cl'.pending = ⟨(dumpPump ops pfx s cd rem k big).1, rt, cd⟩ ∧
+      cl'.st = (if (dumpPump ops pfx s cd rem k big).2.2 then SmState.Single else SmState.Multipart) ∧
+      cl'.log = log ∧ cl'.ext = ext ∧
+      ∃ new, cl'.acts = acts0 ++ new ∧ new.filterMap (outOfDumpAct ops s) = (dumpPump ops pfx s cd rem k big).2.1 :=
+  iter_dump_tie env ops s pfx rt cd k rem big acts0 log ext hok
 
 end MiniconfVerif.C10
